@@ -46,7 +46,7 @@ Proof.
   induction ws as [|w ws IH]; intros s u; cbn [release_ws]; [reflexivity|].
   destruct (t_pc (tasks s w)); try reflexivity.
   - apply (sub_set_pc (set_lock s (Some w) ws) w (PW3 k f) u).
-  - rewrite IH. rewrite sub_finish_close. reflexivity.
+  - rewrite IH. rewrite sub_finish_close, tasks_shutdown_tr. reflexivity.
 Qed.
 Lemma sub_drain tb : forall ts u, t_sub (drain tb ts u) = t_sub (ts u).
 Proof.
@@ -89,7 +89,8 @@ Ltac subtac Hw :=
   cbn [tasks set_pump set_dq set_pump_done];
   repeat first [ rewrite sub_finish_w | rewrite sub_finish | rewrite sub_set_pc | rewrite sub_finish_close
                | rewrite sub_enter_close | rewrite sub_feed | rewrite sub_wake | rewrite sub_push ];
-  cbn [tasks set_task set_tasks set_table set_rtable set_buffering set_failing set_flags set_queue set_lock set_wire set_shut set_closed set_pump set_dq set_pump_done];
+  cbn [tasks set_task set_tasks set_table set_rtable set_buffering set_failing set_stalled set_flags set_queue set_lock set_wire set_shut set_closed set_pump set_dq set_pump_done];
+  rewrite ?tasks_shutdown_tr;
   rewrite ?upd_other by exact Hw; try reflexivity.
 
 Lemma step_other_sub s t s' w :
@@ -108,7 +109,8 @@ Proof.
   - destruct (wr s); inversion H; subst; subtac Hw.
   - discriminate.
   - inversion H; subst; subtac Hw.
-  - destruct (failing s || shut s); inversion H; subst.
+  - destruct (stalled s && negb (shut s)); [discriminate|].
+    destruct (failing s || shut s); inversion H; subst.
     + rewrite sub_set_pc. unfold release. rewrite sub_release_ws. reflexivity.
     + rewrite sub_finish_w. unfold release. rewrite sub_release_ws. reflexivity.
   - inversion H; subst; subtac Hw.
@@ -147,7 +149,7 @@ Proof.
   rewrite app_nil_r. change (lin (finish X t r)) with (lin X). rewrite L, S. exact O.
 Qed.
 
-Ltac subgoal_tsub := cbn [tasks set_task set_tasks set_buffering set_failing set_flags]; rewrite ?upd_same; reflexivity.
+Ltac subgoal_tsub := cbn [tasks set_task set_tasks set_buffering set_failing set_stalled set_flags]; rewrite ?upd_same; reflexivity.
 
 Lemma order_self s t s' :
   Inv s -> step s t = Some s' -> closed s' = false -> order_ok s t -> order_ok s' t.
@@ -166,7 +168,7 @@ Proof.
       repeat match type of H with
              | context [match ?y with _ => _ end] => destruct y eqn:?
              end; inversion H; subst s'; clear H;
-      try (apply (order_finish s); [reflexivity | unfold s0, x; cbn [tasks set_task set_tasks set_buffering set_failing set_flags t_sub with_prog with_verdict with_rq]; rewrite ?upd_same; cbn [t_sub with_prog with_verdict with_rq]; reflexivity | exact O]).
+      try (apply (order_finish s); [reflexivity | unfold s0, x; cbn [tasks set_task set_tasks set_buffering set_failing set_stalled set_flags t_sub with_prog with_verdict with_rq]; rewrite ?upd_same; cbn [t_sub with_prog with_verdict with_rq]; reflexivity | exact O]).
     + (* CWrite *)
       destruct (pcof_sub_set_task s0 t (with_pc (with_sub x f) (PW0 WkPlain f))) as [P S]. rewrite P, S.
       cbn [t_pc with_pc in_hand t_sub with_sub lin set_task set_tasks]. rewrite X, <- O. reflexivity.
@@ -231,6 +233,7 @@ Proof.
     change (t_sub (tasks (set_queue s [] (lin s ++ [(t, f)])) t)) with (t_sub (tasks s t)). exact O.
   - (* PW4 *)
     assert (wr s = Some t) as Ewr by (apply (inv_holder s HI); unfold pcof; rewrite Epc; reflexivity).
+    destruct (stalled s && negb (shut s)); [discriminate|].
     destruct (failing s || shut s); inversion H; subst.
     + rewrite (pcof_of_pcu _ _ _ _ (pcu_set_pc _ t _)), sub_set_pc. unfold release. rewrite sub_release_ws.
       cbn [in_hand]. cbn [lin set_pc set_task set_tasks].
@@ -254,7 +257,7 @@ Proof.
     destruct (wr s); inversion H; subst.
     + rewrite (pcof_of_pcu _ _ _ _ (pcu_set_pc _ t _)), sub_set_pc. exact O.
     + rewrite pcof_finish_close_same, sub_finish_close.
-      destruct (data_finish_close (set_shut s) t a k) as (_ & _ & L & _). rewrite L. exact O.
+      destruct (data_finish_close (shutdown_tr s) t a k) as (_ & _ & L & _). rewrite L. shtr. exact O.
   - discriminate.
   - (* PO0: first insert *)
     inversion H; subst. cbv zeta.
